@@ -737,6 +737,7 @@ func checkC09(c *Ctx, r *Report) {
 		}
 	}
 	c09Extra(c, r)
+	c09Extra2(c, r, "C09")
 	r.NotCov = append(r.NotCov, "round-trip equality over all messages", "whitespace trimming of header values", "address normalisation", "word-decoding of arbitrary subjects/file names")
 }
 
@@ -977,6 +978,134 @@ func c18Extra(c *Ctx, r *Report) {
 			}
 			r.Check("C18-decode", fnName(fn), "returned text", c.pos(ret.Pos()), translated,
 				"the text returned is the translator's output for the declared charset", "a text can be returned that did not go through the translator of the declared charset (e.g. a 'looks like UTF-8' shortcut): Latin-1 text such as \"12Â°C\" comes back as \"12°C\"")
+		}
+	}
+}
+
+// c09Extra2: rules added after the fourth seeded batch.
+func c09Extra2(c *Ctx, r *Report, prefix string) {
+	const pkg = "fbb"
+	// ---- values of a repeated header field keep their order: the File headers are the index of the
+	// attachment sections that follow, in the order they were added
+	rule := prefix + "-valueorder"
+	r.Rule(rule, 1, "values of a repeated header field are written in the order they were added")
+	if fn := c.Func(pkg, "(Header).Write"); fn == nil {
+		r.Fail(rule, "anchor Header.Write not found")
+	} else {
+		n := 0
+		for _, ci := range callsTo(fn, false, "fmt.Fprintf") {
+			s, _ := constString(ci.Common().Args[1])
+			if s != "%s: %s\r\n" {
+				continue
+			}
+			n++
+			ranged, _ := rangedSlice(ci.Block())
+			ok := false
+			if lk, isLk := ranged.(*ssa.Lookup); isLk && sameSlotValue(lk.X, fn.Params[0]) {
+				ok = true
+			}
+			r.Check(rule, fnName(fn), "values of one key", c.pos(ci.Pos()), ok,
+				"the loop ranges over h[key] itself", "the values of a header field are not written straight from h[key] (a sorted or otherwise reordered copy?): the File headers then no longer list the attachments in the order their data is written, so a receiver attaches contents to the wrong names or cannot parse the message")
+		}
+		if n == 0 {
+			r.Add(rule, fnName(fn), "values of one key", c.pos(fn.Pos())).Bad("no write of a 'key: value' line found in Header.Write (unresolved)")
+		}
+	}
+	if prefix != "C09" {
+		return
+	}
+	// ---- every name/subject put into a header is word-encoded on every path
+	r.Rule("C09-encoded", 2, "attachment names and subjects are word-encoded on every path")
+	allThrough := func(v ssa.Value, pred func(*ssa.Call) bool) bool {
+		seen := map[ssa.Value]bool{}
+		var walk func(v ssa.Value, d int) bool
+		walk = func(v ssa.Value, d int) bool {
+			if d > 8 || seen[v] {
+				return true
+			}
+			seen[v] = true
+			switch x := v.(type) {
+			case *ssa.Call:
+				return pred(x)
+			case *ssa.Phi:
+				for _, e := range x.Edges {
+					if !walk(e, d+1) {
+						return false
+					}
+				}
+				return true
+			case *ssa.UnOp:
+				if o := origin(x); o != ssa.Value(x) {
+					return walk(o, d+1)
+				}
+			case *ssa.MakeInterface:
+				return walk(x.X, d+1)
+			case *ssa.Extract:
+				if call, ok := x.Tuple.(*ssa.Call); ok {
+					return pred(call)
+				}
+			}
+			return false
+		}
+		return walk(v, 0)
+	}
+	isEncode := func(call *ssa.Call) bool { return strings.HasSuffix(callName(&call.Call), "mime.WordEncoder.Encode") }
+	if fn := c.Func(pkg, "(*Message).AddFile"); fn != nil {
+		for _, ci := range callsTo(fn, false, "fmt.Sprintf") {
+			args, ok := variadicArgs(ci.Common().Args[1])
+			if !ok || len(args) < 2 {
+				continue
+			}
+			r.Check("C09-encoded", fnName(fn), "attachment name in the File header", c.pos(ci.Pos()), allThrough(args[len(args)-1], isEncode),
+				"the name is the result of QEncoding.Encode on every path", "the attachment name can reach the File header without going through QEncoding.Encode (e.g. an 'ASCII fast path'): Encode also escapes control characters, so a name containing CR/LF or NUL breaks the header block (or injects a header)")
+		}
+	}
+	if fn := c.Func(pkg, "(*Message).SetSubject"); fn != nil {
+		for _, ci := range callsTo(fn, false, "fbb.Header.Set") {
+			r.Check("C09-encoded", fnName(fn), "subject header", c.pos(ci.Pos()), allThrough(ci.Common().Args[2], isEncode),
+				"the subject is the result of QEncoding.Encode on every path", "the subject can reach the header without going through QEncoding.Encode")
+		}
+	}
+	// ---- serialised bytes belong to the caller
+	r.Rule("C09-owned", 1, "Message.Bytes returns memory nobody else will write")
+	if fn := c.Func(pkg, "(*Message).Bytes"); fn != nil {
+		for _, ret := range returnsOf(fn) {
+			v := resOf(ret, 0)
+			if isNilConst(v) {
+				continue
+			}
+			call, ok := v.(*ssa.Call)
+			o := r.Add("C09-owned", fnName(fn), "returned slice", c.pos(ret.Pos()))
+			if !ok || callName(&call.Call) != "bytes.Buffer.Bytes" {
+				o.OK("not a view of a bytes.Buffer")
+				continue
+			}
+			buf := call.Call.Args[0]
+			al, isAlloc := buf.(*ssa.Alloc)
+			escapes := ""
+			if isAlloc {
+				for _, ref := range *al.Referrers() {
+					if ci, isCall := ref.(ssa.CallInstruction); isCall {
+						n := callName(ci.Common())
+						if strings.HasPrefix(n, "sync.Pool.") {
+							escapes = n
+						}
+					}
+					if st, isSt := ref.(*ssa.Store); isSt && st.Val == ssa.Value(al) {
+						if _, local := st.Addr.(*ssa.Alloc); !local {
+							escapes = "stored at " + c.pos(st.Pos())
+						}
+					}
+				}
+			}
+			switch {
+			case !isAlloc:
+				o.Bad("Bytes returns a view of a buffer that was not created by this call (%s - pooled, cached or shared): a later call overwrites the bytes an earlier caller still holds", pathOf(buf))
+			case escapes != "":
+				o.Bad("Bytes returns a view of a buffer that is also handed to %s: a later call overwrites the bytes an earlier caller still holds", escapes)
+			default:
+				o.OK("the buffer is created by this call and not retained anywhere")
+			}
 		}
 	}
 }
